@@ -9,8 +9,13 @@
   to exactly one leaf); the correspondence run compares `par_query` on pools of 1, 2, 3, 8 and 16
   threads (three consumption modes) with the model's and the L0 spec's sequential answer, and checks
   address-disjointness of all mutable items handed out in one parallel iteration.
+  At the level of worlds (`Lemmas/ParL`, `Lemmas/ParAddr`): the rows handed out are a permutation
+  of `query`'s rows (`C09_par_query_is_query`); over all of them the mutable addresses
+  (archetype, row, component) are pairwise distinct (`C09_mut_access_disjoint`); and updates that
+  touch only their own row end in the same state in the parallel order as in the sequential order
+  (`C09_independent_updates_eq_sequential`).
 -/
-import BroodModel.Lemmas.ParL
+import BroodModel.Lemmas.ParAddr
 
 namespace Brood
 
@@ -77,6 +82,35 @@ theorem C09_par_query_is_query {w : World} (hi : Inv w) (vs : List View) (f : Fi
   obtain ⟨rows, h1, h2⟩ := par_query_perm hi vs f trees hp
   exact ⟨rows, h1, h2, _, query_eq_spec hi vs f, h2⟩
 
+/-- **No two results handed out during one parallel iteration give mutable access to the same
+component value.**  `parAddrRows` lists, per result row, the (archetype, row, component) addresses
+the row's `&mut` / `Option<&mut>` views point at; for every traversal order and every split
+trees, all of them are pairwise distinct — provided the views name no component twice mutably,
+which the type system enforces (C14, `views2 … same`). -/
+theorem C09_mut_access_disjoint {w : World} (hi : Inv w) (vs : List View)
+    (hv : (vs.filterMap View.mutComp).Nodup) (f : Filter) (trees : Arch → Split)
+    {visit : List Arch} (hp : visit.Perm w.archs) :
+    (parAddrRows vs f trees visit).flatten.Nodup :=
+  par_mut_addrs_nodup hi vs hv f trees hp
+
+/-- **The outcome of a parallel system that updates each entity independently equals that of its
+sequential counterpart**: for every update `g` that touches only its own row (`apRow`), running it
+over the rows in the order a parallel iteration hands them out ends in the state of running it in
+the sequential query's order. -/
+theorem C09_independent_updates_eq_sequential {w : World} (hi : Inv w) (vs : List View) (f : Filter)
+    (trees : Arch → Split) {visit : List Arch} (hp : visit.Perm w.archs)
+    (g : Mask × Nat → (Addr → Nat) → Addr → Nat) (s : Addr → Nat) :
+    runSeq (apRow g) (parRowKeys vs f trees visit) s = runSeq (apRow g) (seqRowKeys vs f w.archs) s :=
+  par_row_updates_eq_seq hi vs f trees hp g s
+
+/-- Non-vacuity: two mutable views of different components over a two-row archetype give four
+distinct addresses; the split tree does not matter. -/
+example :
+    parAddrRows [.mut 0, .omut 1] .none (fun _ => .node 1 .leaf .leaf)
+      [⟨0, [true, true], [⟨0, 0⟩, ⟨1, 0⟩], [[⟨0, 1⟩, ⟨0, 2⟩], [⟨1, 3⟩, ⟨1, 4⟩]]⟩] =
+    [[([true, true], 0, 0), ([true, true], 0, 1)], [([true, true], 1, 0), ([true, true], 1, 1)]] := by
+  decide
+
 example : (Split.node 2 (.node 1 .leaf .leaf) .leaf).pieces [10, 20, 30] = [[10], [20], [30]] := by decide
 
 end Brood
@@ -86,3 +120,5 @@ end Brood
 #print axioms Brood.C09_repeat_none_split
 #print axioms Brood.C09_zip_pieces
 #print axioms Brood.C09_par_query_is_query
+#print axioms Brood.C09_mut_access_disjoint
+#print axioms Brood.C09_independent_updates_eq_sequential
